@@ -350,6 +350,32 @@ impl Part for CompositeKeys {
     }
 }
 
+/// `GRAPH ?g { ... }` blocks whose patterns use the graph variable as a term, over data in which triples about a named
+/// graph live in that graph, in another graph or in the default graph (scoping of the graph variable).
+struct GraphVarTerm;
+impl Part for GraphVarTerm {
+    type Case = Case;
+    fn name(&self) -> &'static str {
+        "graph-var-term"
+    }
+    fn cases(&self, tier: Tier) -> u32 {
+        tier.pick(1500, 40_000)
+    }
+    fn replay_repeats(&self) -> u32 {
+        5
+    }
+    fn strategy(&self, _tier: Tier) -> BoxedStrategy<Case> {
+        (graph_var_term_strategy(), any::<bool>(), proptest::bool::weighted(0.25)).prop_map(|((data, query), use_prefix, second_entry)| Case { data, query, use_prefix, second_entry }).boxed()
+    }
+    fn check(&self, c: &Case) -> Outcome {
+        check_case(c)
+    }
+    fn describe(&self, c: &Case) -> serde_json::Value {
+        json!({"query": Printer { use_prefix: c.use_prefix }.query(&c.query), "default_triples": c.data.default.len(),
+               "named_graphs": c.data.named.iter().map(|(g, t)| format!("{g}:{}", t.len())).collect::<Vec<_>>()})
+    }
+}
+
 fn main() {
     let mut s = Session::start(
         "C01",
@@ -367,5 +393,6 @@ fn main() {
     s.run(&Main);
     s.run(&OrderMixed);
     s.run(&CompositeKeys);
+    s.run(&GraphVarTerm);
     std::process::exit(s.finish());
 }
